@@ -446,10 +446,13 @@ Proof.
       u18_leaf s0; exact H0.
   - (* EOF *)
     unfold pdu_eof_unacked. destr_inner; [exact H0|]. destr_inner.
-    + match goal with |- context [finalize_receive now ?x] =>
+    + match goal with |- context [check_file_size now (eof_size e) ?x] =>
+        assert (H2 : U18 (check_file_size now (eof_size e) x)) end.
+      { unfold check_file_size. destr_inner; [apply U18_handle_fault|]; u18_leaf s0; exact H0. }
+      destruct (cfs_go _ _ _); [|exact H2].
+      match goal with |- context [finalize_receive now ?x] =>
         assert (H1 : U18 (finalize_receive now x)) end.
-      { apply U18_finalize. eapply (U18_ext (check_file_size now (eof_size e) _)); [ | reflexivity ..].
-        unfold check_file_size. destr_inner; [apply U18_handle_fault|]; u18_leaf s0; exact H0. }
+      { apply U18_finalize. eapply (U18_ext (check_file_size now (eof_size e) _)); [exact H2 | reflexivity ..]. }
       match goal with |- context [finalize_receive now ?x] =>
         remember (finalize_receive now x) as s1 eqn:E1; clear E1 end.
       destruct (closure s1) eqn:Ec; [|apply U18_shutdown; exact H1].
